@@ -29,8 +29,10 @@ for fn in sorted(os.listdir(_here)):
         P = PROPS.setdefault(pid, dict(models=[], assumptions=[]))
         P["models"].append(mod.NAME)
         P["assumptions"] += extra.get("assumptions", [])
+        # monitors of this model that belong to another property but count for `pid` as well
+        P.setdefault("also", set()).update(extra.get("also", []))
         for k, v in extra.items():
-            if k != "assumptions":
+            if k not in ("assumptions", "also"):
                 P[k] = v
 _only = os.environ.get("VERIF_ONLY_MODEL")
 for pid, P in PROPS.items():
